@@ -42,6 +42,8 @@ type Engine struct {
 	trustedUsed map[string]bool
 	callees  map[string]bool
 	nlaUF    bool
+	subFuns  map[string]bool
+	rel      *relRun
 	lastLoad map[ssa.Value]*Loc
 	lastRet  []ssa.Value
 }
@@ -123,7 +125,10 @@ func (e *Engine) wf(t types.Type, l []Term, next Term, cs *[]Term) {
 		base, off, ln, cp := l[0], l[1], l[2], l[3]
 		*cs = append(*cs, Le(IntLit(0), base), Lt(base, next), Le(IntLit(0), off), Le(IntLit(0), ln), Le(ln, cp),
 			Implies(Eq(base, IntLit(0)), And(Eq(cp, IntLit(0)), Eq(off, IntLit(0)))))
-	case *types.Pointer, *types.Map, *types.Chan:
+	case *types.Pointer:
+		// allocated objects are below the allocation counter; sub-object references are negative
+		*cs = append(*cs, Lt(l[0], next))
+	case *types.Map, *types.Chan:
 		*cs = append(*cs, Le(IntLit(0), l[0]), Lt(l[0], next))
 	case *types.Struct:
 		off := 0
@@ -285,7 +290,18 @@ func (e *Engine) setSliceHeap(st *State, elem types.Type, leaf int, t Term) {
 }
 
 func (e *Engine) objHeapKey(root types.Type, leaf int) string {
-	return fmt.Sprintf("HO_%s_%d", typeKey(root), leaf)
+	return fmt.Sprintf("HO_%s_%d", e.relKey(typeKey(root)), leaf)
+}
+
+// relKey identifies a forked type with its standard-library original (relational mode only).
+func (e *Engine) relKey(k string) string {
+	if e.rel == nil {
+		return k
+	}
+	for _, p := range e.rel.alias {
+		k = strings.ReplaceAll(k, p[0], p[1])
+	}
+	return k
 }
 
 func (e *Engine) getObjHeap(st *State, root types.Type, leaf int) Term {
@@ -303,7 +319,7 @@ func (e *Engine) setObjHeap(st *State, root types.Type, leaf int, t Term) {
 
 // name a heap term so that scripts stay small
 func (e *Engine) nameTerm(st *State, hint string, t Term) Term {
-	if len(t.S) < 60 {
+	if len(t.S) < 60 || e.rel != nil {
 		return t
 	}
 	c := e.ctx.Fresh(hint, t.Sort)
@@ -702,6 +718,16 @@ func (e *Engine) obligationPanic(st *State, kind, label string, ok Term) {
 	if ok.S == "true" {
 		return
 	}
+	if e.rel != nil {
+		if !st.dead {
+			bad := st.Clone()
+			bad.Assume(Not(ok))
+			bad.path = append(bad.path, "!")
+			e.relRecord("panic", -1, bad, nil, nil)
+		}
+		st.Assume(ok)
+		return
+	}
 	if e.rootC != nil && e.rootC.PanicsIff != nil {
 		// permitted iff the panic condition holds on entry; on_panic clauses must hold too
 		se := e.specEnv(e.entry, e.entry, e.rootFr)
@@ -735,6 +761,10 @@ func (e *Engine) checkOnPanic(st *State) {
 
 func (e *Engine) explicitPanic(st *State, fr *Frame, what string) {
 	e.paths++
+	if e.rel != nil {
+		e.relRecord("panic", -1, st, nil, nil)
+		return
+	}
 	if e.rootC != nil && e.rootC.PanicsIff != nil {
 		se := e.specEnv(e.entry, e.entry, e.rootFr)
 		cond := e.evalBool(e.rootC.PanicsIff.E, se)
